@@ -38,6 +38,7 @@ func runC01(c *engine.Ctx) {
 	checkFreshLookup(c, "R14") // shared with C06.R13: a connection is bridged to the listener the registry names now
 	checkMuxPriorities(c, "R15")
 	checkThrowawayBufio(c, "R16") // shared with C16.R22: a read-ahead reader that is dropped swallows the head of the stream
+	checkInWorkConnDispatch(c, "R17") // shared with C19.R3: a work connection that is not dispatched is closed (its user would hang)
 }
 
 // checkMuxPriorities (R15): on the shared bind port golib's mux asks its sub-listeners in ascending priority and gives
